@@ -368,28 +368,43 @@ def build(prop_id: str, component: str, extract_file: str, need_props=True) -> B
         rules_v = COQ / "props" / f"{prop_id}rules.v"     # optional second file of the same property (compiled as a dependency)
         if rules_v.exists():
             br.obligations += re.findall(r"^\s*(?:Theorem|Lemma|Corollary)\s+(\w+)", strip_coq_comments(rules_v.read_text()), re.M)
+        # optional extension file props/<id>x.v: further theorems of the same property, built and
+        # assumption-printed like the main file (kept apart so that the main file stays small)
+        ext_v = COQ / "props" / f"{prop_id}x.v"
+        ext_obl = []
+        if ext_v.exists():
+            ext_obl = re.findall(r"^\s*(?:Theorem|Lemma|Corollary)\s+(\w+)", strip_coq_comments(ext_v.read_text()), re.M)
+        main_obl = list(br.obligations)
+        br.obligations += ext_obl
         br.forbidden = forbidden_scan()
         if ok and need_props:
-            rc, out = sh(f"timeout 1500 make -j{NPROC} props/{prop_id}.vo 2>&1 | tail -40", cwd=COQ, timeout=1600)
-            rc2 = 0 if (COQ / "props" / f"{prop_id}.vo").exists() and "Error" not in out else 1
+            units = [(prop_id, main_obl)] + ([(prop_id + "x", ext_obl)] if ext_v.exists() else [])
+            targets = " ".join(f"props/{u}.vo" for u, _ in units)
+            rc, out = sh(f"timeout 1500 make -j{NPROC} {targets} 2>&1 | tail -40", cwd=COQ, timeout=1600)
+            rc2 = 0 if all((COQ / "props" / f"{u}.vo").exists() for u, _ in units) and "Error" not in out else 1
             br.log += out
             if rc2 == 0:
                 (BUILD / "tmp").mkdir(exist_ok=True)
-                # re-run coqc on the small props file to capture Print Assumptions
-                rc3, out3 = sh(
-                    ["coqc", "-Q", "theories", "OJD", "-Q", "props", "OJDProps", "-o", str(BUILD / "tmp" / f"{prop_id}.vo"), f"props/{prop_id}.v"],
-                    cwd=COQ,
-                )
-                br.log += out3
-                if rc3 == 0:
+                # re-run coqc on the small props files to capture Print Assumptions
+                good = True
+                for u, names in units:
+                    rc3, out3 = sh(
+                        ["coqc", "-Q", "theories", "OJD", "-Q", "props", "OJDProps", "-o", str(BUILD / "tmp" / f"{u}.vo"), f"props/{u}.v"],
+                        cwd=COQ,
+                    )
+                    br.log += out3
+                    if rc3 == 0:
+                        br.assumptions.update(parse_assumptions(out3, names if u != prop_id else br.obligations[:len(br.obligations) - len(ext_obl)]))
+                    else:
+                        good = False
+                    for ext in (".vo", ".glob", ".vok", ".vos"):
+                        try:
+                            (BUILD / "tmp" / f"{u}{ext}").unlink()
+                        except OSError:
+                            pass
+                if good:
                     br.ok_props = True
                     br.discharged = list(br.obligations)
-                    br.assumptions = parse_assumptions(out3, br.obligations)
-                for ext in (".vo", ".glob", ".vok", ".vos"):
-                    try:
-                        (BUILD / "tmp" / f"{prop_id}{ext}").unlink()
-                    except OSError:
-                        pass
             if not br.ok_props:
                 m = re.search(r'File "([^"]+)", line (\d+)', br.log)
                 br.failed_theorem = locate_failed(m) if m else None
@@ -675,7 +690,8 @@ def main(prop, argv):
     if tier == "thorough" and br.ok_props:
         # independent re-check of the compiled property file and everything it depends on, with the axiom list
         with build_lock():
-            rc, out = sh(["timeout", "1700", "coqchk", "-silent", "-o", "-Q", "theories", "OJD", "-Q", "props", "OJDProps", f"OJDProps.{prop.id}"], cwd=COQ, timeout=1800)
+            mods = [f"OJDProps.{prop.id}"] + ([f"OJDProps.{prop.id}x"] if (COQ / "props" / f"{prop.id}x.v").exists() else [])
+            rc, out = sh(["timeout", "1700", "coqchk", "-silent", "-o", "-Q", "theories", "OJD", "-Q", "props", "OJDProps"] + mods, cwd=COQ, timeout=1800)
         coqchk = " ".join(out.split())[-1500:]
         if rc != 0:
             br.ok_props = False
